@@ -102,6 +102,7 @@ func runC06(w *World) *Result {
 	r.Rule("R-C06-single", "every element of a value list is tested for multiple results before the list can end", 1)
 	c06Single(w, r)
 	c06SwitchTag(w, pf, r)
+	c06ZeroType(w, r)
 	// second line
 	bash, err1 := BuildBackend(w, "bash")
 	batch, err2 := BuildBackend(w, "batch")
@@ -1859,5 +1860,67 @@ func c06SwitchTag(w *World, pf *ParserFacts, r *Result) {
 	}
 	if n == 0 {
 		r.Bad(rule, "single:switch-tag:none", "-", "the construction of the if-chain for switch was not found")
+	}
+}
+
+// c06ZeroType: "has no value" is one particular type descriptor (the data type the non-void
+// tests compare with). A function that yields a type descriptor must therefore never yield
+// the zero descriptor (a variable that was declared and not assigned on some path): it is
+// not the no-value descriptor, so a call without results would pass every non-void test,
+// and it is no proper type either.
+func c06ZeroType(w *World, r *Result) {
+	rule := "R-C06-single"
+	n := 0
+	for _, fn := range w.Funcs("parser") {
+		res := fn.Signature.Results()
+		idx := -1
+		for i := 0; i < res.Len(); i++ {
+			if namedName(res.At(i).Type()) == "ValueType" {
+				idx = i
+			}
+		}
+		if idx < 0 || len(fn.Blocks) == 0 {
+			continue
+		}
+		n++
+		zero := ""
+		var walk func(v ssa.Value, d int, seen map[ssa.Value]bool)
+		walk = func(v ssa.Value, d int, seen map[ssa.Value]bool) {
+			if v == nil || d > 6 || seen[v] || zero != "" {
+				return
+			}
+			seen[v] = true
+			switch x := v.(type) {
+			case *ssa.Const:
+				if x.Value == nil {
+					if _, isStruct := x.Type().Underlying().(*types.Struct); isStruct {
+						zero = w.Pos(fn.Pos())
+					}
+				}
+			case *ssa.Phi:
+				for _, e := range x.Edges {
+					walk(e, d+1, seen)
+				}
+			case *ssa.UnOp:
+				// load of a local that is not stored on every path is not followed (ssa lifts such locals to phis)
+			}
+		}
+		for _, b := range fn.Blocks {
+			if len(b.Instrs) == 0 {
+				continue
+			}
+			if ret, ok := b.Instrs[len(b.Instrs)-1].(*ssa.Return); ok && idx < len(ret.Results) && !isErrorReturn(ret) {
+				walk(ret.Results[idx], 0, map[ssa.Value]bool{})
+			}
+		}
+		key := "single:zero-type:" + FuncName(fn)
+		if zero != "" {
+			r.Bad(rule, key, zero, FuncName(fn)+" can return the zero type descriptor (a path leaves the result unassigned): it is neither a type nor the no-value descriptor the non-void tests compare with, so a call of a function without results passes them")
+		} else {
+			r.Ok(rule, key, w.Pos(fn.Pos()), "every returned type descriptor is built from its inputs or by the constructor")
+		}
+	}
+	if n == 0 {
+		r.Bad(rule, "single:zero-type:none", "-", "no function returning a type descriptor found")
 	}
 }
